@@ -516,3 +516,50 @@ func RunFDMatrix(w *World, r *Report) {
 	}
 	r.Floor("fdmatrix", 1)
 }
+
+// RunMatrixOrder: glyph coordinates of a CID-keyed font pass through the
+// matrix of the glyph's font dictionary first and through the font matrix
+// second. With the library's convention (a.Mul(b) applies a, then b) the
+// font dictionary matrix is therefore the receiver of the product; all sites
+// that combine the two agree on this.
+func RunMatrixOrder(w *World, r *Report) {
+	r.Rule("matrixorder: in every call of (matrix.Matrix).Mul in the library one of whose operands derives from the FontMatrices of the outlines and the other does not, the FontMatrices operand is the receiver (the font dictionary matrix is applied before the font matrix and any scaling)")
+	n := 0
+	for _, fn := range w.LibFuncs() {
+		for _, b := range fn.Blocks {
+			for _, in := range b.Instrs {
+				call, ok := in.(*ssa.Call)
+				if !ok {
+					continue
+				}
+				callee := call.Common().StaticCallee()
+				if callee == nil || callee.Name() != "Mul" || callee.Pkg == nil || !strings.HasSuffix(callee.Pkg.Pkg.Path(), "/matrix") || len(call.Common().Args) != 2 {
+					continue
+				}
+				fromFD := func(v ssa.Value) bool {
+					for x := range backSliceLocal(fn, v) {
+						if fa, ok := x.(*ssa.FieldAddr); ok && fieldName(fa) == "FontMatrices" {
+							return true
+						}
+						if f, ok := x.(*ssa.Field); ok && fieldNameOfField(f) == "FontMatrices" {
+							return true
+						}
+					}
+					return false
+				}
+				a, bb := fromFD(call.Common().Args[0]), fromFD(call.Common().Args[1])
+				if a == bb {
+					continue
+				}
+				n++
+				key := r.MkKey("matrixorder", fnName(fn), "product with a font dictionary matrix")
+				if a {
+					r.OK("matrixorder", key, w.Pos(call.Pos()), "the font dictionary matrix is applied first")
+				} else {
+					r.Fail("matrixorder", key, w.Pos(call.Pos()), "the font dictionary matrix is the argument, not the receiver, of this product: it is applied after the font matrix (and the scaling) instead of before; unless the matrices commute, boxes and widths of CID-keyed fonts come out wrong and disagree with the other queries", nil)
+				}
+			}
+		}
+	}
+	r.Floor("matrixorder", 2)
+}
